@@ -1606,6 +1606,38 @@ func (c *Ctx) compoundRegistries() {
 			if appends == 0 && why == "" {
 				why = "nothing is appended in the inner loop"
 			}
+			// what is returned is the list the compounds were appended to
+			if why == "" {
+				var appended types.Object
+				ast.Inspect(inner.Body, func(nd ast.Node) bool {
+					as, ok := nd.(*ast.AssignStmt)
+					if !ok || len(as.Lhs) != 1 || len(as.Rhs) != 1 {
+						return true
+					}
+					if call, isC := ast.Unparen(as.Rhs[0]).(*ast.CallExpr); isC {
+						if id, isID := call.Fun.(*ast.Ident); isID && id.Name == "append" {
+							if l, isL := as.Lhs[0].(*ast.Ident); isL {
+								appended = info.ObjectOf(l)
+							}
+						}
+					}
+					return true
+				})
+				ast.Inspect(fi.Decl.Body, func(nd ast.Node) bool {
+					if _, isLit := nd.(*ast.FuncLit); isLit {
+						return false
+					}
+					r, ok := nd.(*ast.ReturnStmt)
+					if !ok || len(r.Results) != 1 {
+						return true
+					}
+					o, _ := c.origin(info, fi.Decl, r.Results[0], 0)
+					if id, isID := ast.Unparen(o).(*ast.Ident); !isID || appended == nil || info.ObjectOf(id) != appended {
+						why = "the function returns " + exprString(r.Results[0]) + ", not the list the compounds were appended to"
+					}
+					return true
+				})
+			}
 		}
 		run.Oblige(why == "")
 		if why != "" {
